@@ -83,10 +83,17 @@ def check(ctx):
         if r0[0] == "call" and r0[1].endswith("unwrap_or"):
             ok_ans = strip_casts(r0[2][1]) == ("const", 0) and C01._mentions(r0[2][0], lambda x: x[0] == "call" and x[1].split("::")[-1] in PUBLISH)
             ctx.ob("R08.1", f"{k}|false-when-not-published", ok_ans, site, f"answers `{show(r0)[:100]}`: true comes from the publication's Some answer, false otherwise")
+            # ... and the Some arm answers `true` (a `false` after the slot was published invites the documented retry: the same slot sent twice)
+            cl = [x[1] for x in C01._walk_all(r0) if isinstance(x, tuple) and x[:1] == ("closure",)]
+            vals = set()
+            for ck in cl:
+                cb_ = Body(fx.fn(ck)); vals |= util.returned_values(cb_, D.Dag(cb_), 0)
+            ctx.ob("R08.7", f"{k}|true-when-published", bool(cl) and vals == {("const", 1)}, site, f"the arm taken on the publication's Some answer returns {sorted(map(str, vals))}; required: true")
         else:
             consts = [st[2][1][1].get("int") for b in body.reachable for st in body.stmts(b) if st[0] == "A" and not st[1]["p"] and st[1]["l"] == 0 and st[2][0] == "Use" and st[2][1][0] == "k"]
             ctx.ob("R08.1", f"{k}|answer-after-publication", bool(pubs) and all(all(body.dominates(p, b) for p in pb) for b in body.reachable for st in body.stmts(b) if st[0] == "A" and not st[1]["p"] and st[1]["l"] == 0),
                    site, f"constant answer(s) {consts} are produced only after the publication call")
+            ctx.ob("R08.7", f"{k}|true-when-published", bool(consts) and all(c_ == 1 for c_ in consts), site, f"answers {consts} after the (infallible) publication; required: true")
         # ---------------------------------------------------------------- try_cancel_slot_reserve
         k = f"{path} as {R.T_PROD}::try_cancel_slot_reserve"
         body = Body(fx.fn(k)); dg = D.Dag(body)
@@ -97,9 +104,37 @@ def check(ctx):
         lo, hi, inloop = util.count_on_paths(body, lambda b: b in cb)
         ctx.ob("R08.1", f"{k}|un-reserves-on-every-path", (lo, hi) == (1, 1) and not inloop, body.loc(cans[0][0]) if cans else site, f"{lo}..{hi} un-reserve / deallocate role call(s) per path; required exactly one")
         ctx.ob("R08.1", f"{k}|no-publication-role", not pubs, body.loc(pubs[0][0]) if pubs else site, "a cancelled reservation is never published")
+        # answer: the un-reserve role's own bool, or `true` after an infallible deallocation
+        r0c = strip_casts(dg.local(0))
+        if r0c[0] == "call" and r0c[1].split("::")[-1] in CANCEL:
+            ctx.ob("R08.7", f"{k}|answers-the-un-reserve-s-answer", True, site, f"answers `{show(r0c)[:80]}`", nontrivial=False)
+        else:
+            vals_ = util.returned_values(body, dg, 0)
+            ctx.ob("R08.7", f"{k}|true-when-cancelled", vals_ == {("const", 1)}, site, f"answers {sorted(map(str, vals_))} after the slot was given back; required: true (a `false` invites a second cancel of a slot somebody else may own by then)")
         for (b, c) in cans:
             ident = dg.expr(c["args"][1]) if len(c["args"]) > 1 else ("?",)
             ctx.ob("R08.1", f"{k}|cancels-the-caller-s-slot", _mentions_param(ident, "reserved_slot"), body.loc(b), f"cancelled slot identity `{show(ident)[:100]}`")
+    # ------------------------------------------------------------------ R08.7 the ring's non-spinning publish / un-reserve answer their CAS
+    for fn, field in (("try_unleak_slot_internal", "enqueuer_tail"), ("try_unleak_slot_index_internal", "enqueuer_tail"), ("try_publish_leaked_internal", "tail")):
+        kk = f"{R.AM}::{fn}"
+        f_ = fx.fn_opt(kk)
+        if f_ is None: continue
+        bb = Body(f_); bd_ = D.Dag(bb)
+        cas = [(b, c) for (b, c) in bb.calls if (R.atomic_target(bb, c) or (0, 0, ""))[1:2] == (field,) and "compare_exchange" in (R.atomic_target(bb, c) or (0, 0, ""))[2]]
+        good = bool(cas)
+        det = []
+        cas_blocks = frozenset(b for (b, _) in cas)
+        def consts_in(blocks):
+            return {st[2][1][1].get("int") for x in blocks for st in bb.stmts(x) if st[0] == "A" and not st[1]["p"] and st[1]["l"] == 0 and st[2][0] == "Use" and st[2][1][0] == "k"}
+        for (b, c) in cas:
+            if c["dst"]["p"]: continue
+            for (tb, ok_t, err_t) in util.option_test_edges(bb, bd_, c["dst"]["l"]):
+                if ok_t == err_t: continue
+                v_ok = util.returned_values(bb, bd_, ok_t)
+                v_err = consts_in((bb.reach_from(err_t, avoid=cas_blocks) | {err_t}) - (bb.reach_from(ok_t, avoid=cas_blocks) | {ok_t}))      # answers produced without a new attempt
+                det.append((sorted(map(str, v_ok)), sorted(v_err, key=str)))
+                if v_ok != {("const", 1)} or 1 in v_err: good = False
+        ctx.ob("R08.7", f"{kk}|answers-its-cas", good, f"{bb.f['file']}:{bb.f['line']}", f"answer on the CAS success edge / constants on the failure side: {det}; required: true exactly when the CAS succeeded")
     # ------------------------------------------------------------------ R08.2 ring ref<->index inverses
     for adt in (R.AM, R.FSM):
         k1, k2 = f"{adt}::slot_index_from_slot_ref", f"{adt}::slot_ref_from_slot_index"
